@@ -2086,6 +2086,23 @@ func (fc *FnCtx) contractMods(call *ast.CallExpr, f *types.Func, ct *Contract, m
 		}
 		argExpr, argT := argOf(rootName)
 		if argT == nil {
+			// a caller-scoped extern may name a parameter / the receiver of the function under verification
+			if rsig, ok := fc.root().fn.Type().(*types.Signature); ok && fc.root().fn != nil {
+				var cands []*types.Var
+				if rsig.Recv() != nil {
+					cands = append(cands, rsig.Recv())
+				}
+				for i := 0; i < rsig.Params().Len(); i++ {
+					cands = append(cands, rsig.Params().At(i))
+				}
+				for _, v := range cands {
+					if v.Name() == rootName {
+						argT = v.Type()
+					}
+				}
+			}
+		}
+		if argT == nil {
 			// global or unknown root
 			if len(fieldPath) == 0 {
 				if p := fc.eng.pkgs[ct.Pkg]; p != nil {
